@@ -122,6 +122,19 @@ def impl_run(c):
     agent = SimpleNamespace(propagate_event_queue=[], _time=ScenarioTime(float(c["late"])))
     x = x0_of(c["orbit"]).copy()
     switches = []
+    # every callback of every burn, in the order in which the propagator makes them: (call, burn index, time, thrust installed?)
+    callbacks = []
+    ends = []
+    orig_cb = ft.ScheduledFiniteThrust.getStateChangeCallback
+    step_now = [0]
+
+    def spy_cb(self, time):
+        r = orig_cb(self, time)
+        idx = min(range(len(burns)), key=lambda j: abs(float(self.start_time) - burns[j][0]))
+        callbacks.append((step_now[0], idx, float(time), r is not None))
+        return r
+
+    ft.ScheduledFiniteThrust.getStateChangeCallback = spy_cb
     try:
         for k in range(1, N + 1):
             t0, t1 = c["late"] + (k - 1) * dt, c["late"] + k * dt
@@ -132,6 +145,7 @@ def impl_run(c):
             agent._time = ScenarioTime(t0)
             Agent.prunePropagateEvents(agent)
             n0 = len(pushed)
+            step_now[0] = k
             x = dyn.propagate(ScenarioTime(t0), ScenarioTime(t1), x, scheduled_events=agent.propagate_event_queue)
             for rec in pushed[n0:]:
                 msg = str(getattr(rec, "description", getattr(rec, "event", rec)))
@@ -139,9 +153,11 @@ def impl_run(c):
                 if m:
                     switches.append((k, "off" if m.group(1) else "on", float(m.group(2))))
             on_end = bool(dyn.finite_thrust)
+            ends.append(next((j for j, b in enumerate(burns) if dyn.finite_thrust is b[2]), "?") if on_end else "off")
             switches.append((k, "call-end-on" if on_end else "call-end-off", float(t1)))
     finally:
         ft.EventStack.pushEvent = old
+        ft.ScheduledFiniteThrust.getStateChangeCallback = orig_cb
     # independent reference: coast, thrust switched on exactly on [s, e], coast
     ref = make_dynamics(c["model"])
     T0, T1 = float(c["late"]), float(c["late"] + N * dt)
@@ -157,7 +173,8 @@ def impl_run(c):
         t_now = be
     y = ref.propagate(ScenarioTime(t_now), ScenarioTime(T1), y) if t_now < T1 else y
     coast = make_dynamics(c["model"]).propagate(ScenarioTime(T0), ScenarioTime(T1), x0_of(c["orbit"]).copy())
-    return {"final": [float(v) for v in x], "ref": [float(v) for v in y], "coast": [float(v) for v in coast], "switches": switches}
+    return {"final": [float(v) for v in x], "ref": [float(v) for v in y], "coast": [float(v) for v in coast], "switches": switches,
+            "callbacks": callbacks, "ends": ends}
 
 
 def intervals_from_switches(c, sw):
@@ -180,6 +197,22 @@ def intervals_from_switches(c, sw):
                 on_at = None
         out.append(iv)
     return out
+
+
+def compare_timeline(c, line, impl):
+    """the callbacks the real propagator made in each call against the model's timeline; None when they agree"""
+    if line.startswith("bad-op"):
+        return ("ok", line)
+    calls = line.split()
+    for k, tok in enumerate(calls, start=1):
+        items, end = tok.split(";end=")
+        want = [] if items == "-" else [(float(Fraction(it.split("=")[0])), it.split("=")[1]) for it in items.split(",")]
+        got = [(t, str(j) if on else "off") for (kk, j, t, on) in impl["callbacks"] if kk == k]
+        if len(want) != len(got) or any(abs(w[0] - g[0]) > 1e-6 or w[1] != g[1] for w, g in zip(want, got)):
+            return (f"call {k}: callbacks {got}", f"model {want}")
+        if str(impl["ends"][k - 1]) != end:
+            return (f"call {k}: slot at the end of the call {impl['ends'][k - 1]}", f"model {end}")
+    return None
 
 
 def oracle(run: Run, c, impl):
@@ -208,8 +241,19 @@ def run_cases(run: Run, cs):
     for c in cs:
         ts = [Fraction(c["late"]) + Fraction(c["dt"]) * k for k in range(c["N"] + 1)]
         lines.append(f"burn.calls phaseSwitch {fmt(Fraction(c['s']) + c['late'])} {fmt(Fraction(c['e']) + c['late'])} {len(ts)} " + " ".join(fmt(t) for t in ts))
-    outs = run.model(lines)
+    # the one-slot model of all the agent's burns: the callbacks of every call, in order, and the slot at the end of the call
+    for c in cs:
+        ts = [Fraction(c["late"]) + Fraction(c["dt"]) * k for k in range(c["N"] + 1)]
+        bs = [(Fraction(c["s"]) + c["late"], Fraction(c["e"]) + c["late"])] + ([(Fraction(c["s2"]) + c["late"], Fraction(c["e2"]) + c["late"])] if "s2" in c else [])
+        lines.append(f"burn.timeline {len(bs)} " + " ".join(f"{fmt(a)} {fmt(b)}" for a, b in bs) + f" {len(ts)} " + " ".join(fmt(t) for t in ts))
+    outs_all = run.model(lines)
+    outs = outs_all[:len(cs)] if outs_all is not None else None
     for idx, (c, i) in enumerate(zip(cs, impls)):
+        if outs_all is not None and i[0] == "ok":
+            run.model_compared += 1
+            d = compare_timeline(c, outs_all[len(cs) + idx], i[1])
+            if d:
+                run.disagree("burn.timeline", c, d[0], d[1])
         run.case("burn", c, nontrivial=True, branch=f"{c['kind']}:{c['model']}" + (":two-burns" if "s2" in c else ""))
         if outs is not None and i[0] == "ok" and "s2" not in c:  # the per-call interval model is for one burn; two-burn cases are judged on the trajectory
             run.model_compared += 1
